@@ -43,8 +43,51 @@ def load_mutants(prop):
     return out
 
 
+class _RenameLocals(ast.NodeTransformer):
+    """benign twin: every local variable of every function gets a new name"""
+
+    def visit_FunctionDef(self, node):
+        a = node.args
+        params = {x.arg for x in a.args + a.kwonlyargs + a.posonlyargs}
+        if a.vararg:
+            params.add(a.vararg.arg)
+        if a.kwarg:
+            params.add(a.kwarg.arg)
+        stores, glob, nested = set(), set(), set()
+        for n in ast.walk(node):
+            if isinstance(n, (ast.Global, ast.Nonlocal)):
+                glob |= set(n.names)
+            if isinstance(n, ast.Name) and isinstance(n.ctx, (ast.Store, ast.Del)):
+                stores.add(n.id)
+            if isinstance(n, (ast.FunctionDef, ast.Lambda)) and n is not node:
+                nested |= {x.arg for x in n.args.args}
+        ren = {s for s in stores if s not in params | glob | nested and not s.startswith('__')}
+        for n in ast.walk(node):
+            if isinstance(n, ast.Name) and n.id in ren:
+                n.id += '_r'
+        return node
+
+
+def _global_twin(root, kind):
+    for dp, dn, fn in os.walk(os.path.join(root, 'circus')):
+        for f in fn:
+            if f.endswith('.py'):
+                p = os.path.join(dp, f)
+                t = ast.parse(open(p, encoding='utf8').read())
+                if kind == 'rename-locals':
+                    t = _RenameLocals().visit(t)
+                    ast.fix_missing_locations(t)
+                out = ast.unparse(t) + '\n'
+                compile(out, p, 'exec')
+                with open(p, 'w', encoding='utf8') as fh:
+                    fh.write(out)
+    return None
+
+
 def _apply(root, m):
     """Apply the edit(s) of mutant m under root. Returns None if ok, else reason."""
+    if m.get('global'):
+        return _global_twin(root, m['global'])
     if m.get('patch'):
         p = subprocess.run(['git', 'apply', '--whitespace=nowarn', m['patch']], cwd=root,
                            capture_output=True, text=True)
@@ -114,6 +157,9 @@ def run_one(prop, repo, m):
 
 def run_for(prop, repo, only=None):
     muts = load_mutants(prop)
+    muts.append({'name': 'twin-global-unparse-roundtrip', 'global': 'unparse', 'expect': 'silent'})
+    muts.append({'name': 'twin-global-rename-all-locals', 'global': 'rename-locals',
+                 'expect': 'silent'})
     if only:
         muts = [m for m in muts if m['name'] in only]
     results = []
